@@ -143,11 +143,6 @@ fn candidates(p: &Plan) -> Vec<Plan> {
                         out.push(q);
                     }
                 }
-                Step::AwaitEof { .. } if si + 1 == c.steps.len() => {
-                    let mut q = p.clone();
-                    q.conns[ci].steps.remove(si);
-                    out.push(q);
-                }
                 _ => {}
             }
         }
